@@ -29,11 +29,12 @@ SPEC = "sync/Sync.tla"
 DOCFN = "signac_job_document.json"
 SPFN = "signac_statepoint.json"
 PDOCFN = "signac_project_document.json"
+OLDTXT = '{"old": 1}'          # content of a stale roll-back copy (Sync.tla: OLDTXT)
 NOW = 9
 DEVIATIONS = ["DryCopyRaises", "DryCopytreeMkdirs", "DryNestedDocWrites", "ProjDeepDropped",
               "CopytreeIgnoresExclude", "DircmpIgnoreList", "DryJobNeedsDstDir"]
 REQS = {
-    "C13": ["Superset", "FilesArrive", "DstOnlyUntouched", "SrcUntouched", "Idempotent"],
+    "C13": ["Superset", "FilesArrive", "DstOnlyUntouched", "SrcUntouched", "Idempotent", "NothingElse"],
     "C14": ["OverwriteIffStrategy", "ConflictLeavesFile", "DocOverwriteIffKeyStrategy", "DocRollbackExact"],
     "C15": ["DryRunFrame", "DeepByContent", "ExcludeFrame", "SelectionFrame"],
 }
@@ -70,7 +71,7 @@ def njob(j):
 
 
 def nproj(p):
-    return {"jobs": {i: njob(j) for i, j in sorted(_m(p["jobs"]).items())}, "pdoc": ndv(p["pdoc"])}
+    return {"jobs": {i: njob(j) for i, j in sorted(_m(p["jobs"]).items())}, "pdoc": ndv(p["pdoc"]), "pbak": bool(p.get("pbak", False))}
 
 
 def _lst(x):
@@ -154,6 +155,8 @@ def materialise(root, P, sps):
             raise core.MachineryError("document without a document file")
     if P["pdoc"]["m"]:
         _write(os.path.join(root, PDOCFN), doc_text(P["pdoc"]), 1)
+    if P.get("pbak"):
+        _write(os.path.join(root, PDOCFN + "~"), OLDTXT, 1)        # left behind by a sync that died inside the document sync
 
 
 # ---- files on disk -> spec value (raw observation: os.walk / json, never through signac) ---------------------
@@ -200,7 +203,7 @@ def _load_doc(fn):
 def observe(root, sps):
     """project on disk -> spec shape; job directories are named by the spec's tokens where the id is known"""
     tok_of = {real_id(sp): tok for tok, sp in sps.items()}
-    P = {"jobs": {}, "pdoc": _load_doc(os.path.join(root, PDOCFN))[0]}
+    P = {"jobs": {}, "pdoc": _load_doc(os.path.join(root, PDOCFN))[0], "pbak": os.path.isfile(os.path.join(root, PDOCFN + "~"))}
     ws = os.path.join(root, "workspace")
     for n in sorted(os.listdir(ws)) if os.path.isdir(ws) else []:
         jd = os.path.join(ws, n)
@@ -318,8 +321,11 @@ def call_sync(case, src_root, dst_root, parallel=None, control_order=True, varia
     proj = o["entry"] in ("Project.sync", "sync_projects")
     if proj:
         if o["selection"]["on"]:
-            ids = [real_id(sps[t]) if t in sps else t for t in o["selection"]["ids"]]
-            kw["selection"] = ids if variant % 2 == 0 else [src.open_job(id=i) if os.path.isdir(os.path.join(src.workspace, i)) else i for i in ids]
+            ids = [real_id(sps[t]) if t in sps else core.my_id({"no such job": t}) for t in o["selection"]["ids"]]
+            if not ids:             # the empty selection, in three spellings: list, tuple, a query result without matches
+                kw["selection"] = [[], (), src.find_jobs({"no_such_key_anywhere": 99})][variant % 3]
+            else:
+                kw["selection"] = ids if variant % 2 == 0 else [src.open_job(id=i) if os.path.isdir(os.path.join(src.workspace, i)) else i for i in ids]
         kw["check_schema"] = o["checkSchema"]
         par = o["parallel"] if parallel is None else parallel
         kw["parallel"] = {"no": False, "two": 2, "all": True}[par]
@@ -534,13 +540,13 @@ def _case(src_jobs, dst_jobs, **opts):
     o = {"strategy": "none", "custom": [], "docSync": "bykey", "keysel": [], "recursive": False,
          "exclude": {"on": False, "names": []}, "selection": {"on": False, "ids": []}, "checkSchema": False,
          "deep": False, "dryRun": False, "parallel": "no", "entry": "Project.sync", "jid": "j1", "order": ["j1", "j2"],
-         "nord": sorted(["f", "g", "s", "tags", DOCFN]), "kord": ["k", "n", "x", "y"], "sps": {"j1": {"a": "1"}, "j2": {"a": "2"}}}
+         "nord": sorted(["f", "g", "s", "tags", DOCFN, DOCFN + "~"]), "kord": ["k", "n", "old", "x", "y"], "sps": {"j1": {"a": "1"}, "j2": {"a": "2"}}}
     ex = opts.pop("exclude", None)
     if ex:
         o["exclude"] = {"on": True, "names": [ex]}
     o.update(opts)
-    return {"id": 0, "src": {"jobs": {k: job(**v) for k, v in src_jobs.items()}, "pdoc": EMPTY_DOC},
-            "dst": {"jobs": {k: job(**v) for k, v in dst_jobs.items()}, "pdoc": EMPTY_DOC}, "o": o}
+    return {"id": 0, "src": {"jobs": {k: job(**v) for k, v in src_jobs.items()}, "pdoc": EMPTY_DOC, "pbak": False},
+            "dst": {"jobs": {k: job(**v) for k, v in dst_jobs.items()}, "pdoc": EMPTY_DOC, "pbak": False}, "o": o}
 
 
 PROBES = {
@@ -625,7 +631,7 @@ def _mutate_dir(rnd, s, depth, conflict):
     return d
 
 
-SCALARS = [1, 2, 3, "x", "y", [1, 2], [], 0]
+SCALARS = [1, 2, 3, "x", "y", [1, 2], [], 0, [7, 8], "T=2.0"]
 KEYS = ["k1", "k2", "k3", "k4", "n"]
 
 
@@ -637,6 +643,8 @@ def _rand_doc(rnd, depth=1):
             doc[k] = rnd.choice(SCALARS)
         elif r < 0.5 and depth > 0:
             doc[k] = _rand_doc(rnd, depth - 1)
+        elif r < 0.56 and depth == 0:
+            doc[k] = {"x": rnd.choice([1, 2])}          # a mapping inside the nested mapping (nested mixed-type conflicts)
     return doc
 
 
@@ -672,8 +680,8 @@ def random_case(rnd, prop, cid):
     sps = {"j%d" % i: sp for i, sp in enumerate(sp_pool)}
     toks = sorted(sps)
     sids = [t for t in toks if rnd.random() < 0.6][:4]
-    src = {"jobs": {}, "pdoc": None}
-    dst = {"jobs": {}, "pdoc": None}
+    src = {"jobs": {}, "pdoc": None, "pbak": False}
+    dst = {"jobs": {}, "pdoc": None, "pbak": prop == "C14" and rnd.random() < 0.25}
     tags = prop == "C13" and rnd.random() < 0.15
     for t in sids:
         sd = _rand_dir(rnd, 3, tags)
@@ -687,9 +695,11 @@ def random_case(rnd, prop, cid):
     for P in (src, dst):
         for j in P["jobs"].values():
             j["dmt"] = rnd.randint(1, 4) if j["dex"] else 0
+            if rnd.random() < (0.25 if prop == "C14" and P is dst else 0.04):
+                j["dir"]["f"][DOCFN + "~"] = {"data": OLDTXT, "size": len(OLDTXT), "mtime": rnd.randint(1, 4)}
     spd = _rand_doc(rnd)
     src["pdoc"], dst["pdoc"] = py_to_dv(spd), py_to_dv(_mutate_doc(rnd, spd, conflict * 0.6))
-    names, keys, keynames = {DOCFN}, set(KEYS), set()
+    names, keys, keynames = {DOCFN, DOCFN + "~"}, set(KEYS) | {"old", "x"}, set()
     for P in (src, dst):
         _all_keynames(P["pdoc"], keynames)
         for j in P["jobs"].values():
@@ -717,7 +727,7 @@ def random_case(rnd, prop, cid):
         o["exclude"] = {"on": True, "names": sorted(n for n in names if re.match(pat, n))}
         o["excludePattern"] = pat
     if proj and prop != "C14" and rnd.random() < 0.4:
-        o["selection"] = {"on": True, "ids": sorted(t for t in toks if rnd.random() < 0.5)}
+        o["selection"] = {"on": True, "ids": sorted(t for t in toks if rnd.random() < 0.5) if rnd.random() < 0.75 else []}
     return {"id": cid, "src": src, "dst": dst, "o": o, "pred": None, "feat": []}
 
 
@@ -822,11 +832,12 @@ def selftest(ctx, prop, flags, work):
 
 NEED = {
     "C13": ["clone", "sync-existing", "leftonly-file", "leftonly-nested", "dst-only-file", "dst-only-key", "excluded-src-file",
-            "unselected-src-job", "job-dst-absent", "multi-job", "res:ok", "res:SchemaSyncConflict"],
+            "unselected-src-job", "job-dst-absent", "multi-job", "empty-selection", "res:ok", "res:SchemaSyncConflict"],
     "C14": ["diff-newer", "diff-older", "diff-eqtime", "diff-shallow-equal", "diff-nested", "doc-conflict", "doc-conflict-nested",
-            "doc-conflict-with-mergeable-key", "doc-mixed-type", "res:ok", "res:FileSyncConflict", "res:DocumentSyncConflict", "res:TypeError"],
+            "doc-conflict-with-mergeable-key", "doc-mixed-type", "doc-map-over-plain", "doc-mixed-type-nested", "stale-backup", "stale-backup-at-doc-conflict",
+            "res:ok", "res:FileSyncConflict", "res:DocumentSyncConflict", "res:TypeError", "res:RuntimeError"],
     "C15": ["clone", "sync-existing", "diff-shallow-equal", "diff-excluded", "excluded-src-file", "unselected-src-job", "multi-job",
-            "job-dst-absent", "leftonly-nested", "doc-conflict-nested"],
+            "job-dst-absent", "leftonly-nested", "doc-conflict-nested", "empty-selection"],
 }
 EXCUSABLE = {"C13": ["FilesArrive"], "C14": [], "C15": ["DryRunFrame", "DeepByContent", "ExcludeFrame"]}
 SIZES = {  # (generated cases, shards, random deeper trees, cases of the steps model)
